@@ -387,7 +387,7 @@ double gen_number(Rng &r, bool allow_nonfinite, bool plain) {
         case 10: { // subnormals
             uint64_t bits = r.next() & 0x000FFFFFFFFFFFFFull; if (r.chance(1, 2)) bits |= 0x8000000000000000ull; double d; memcpy(&d, &bits, 8); return d; }
         case 11: return (double)r.range(-1000000, 1000000) / 1000.0;
-        case 12: return (double)(int64_t)r.next() ;
+        case 12: return r.chance(1, 2) ? (double)(int64_t)r.next() : (r.chance(1, 4) ? -1.0 : 1.0) * (1e16 + (double)r.below(90000000000000000ull));  // incl. 17-digit integers
         default: {
             for (;;) { uint64_t bits = r.next(); double d; memcpy(&d, &bits, 8); if (std::isfinite(d)) return d; }
         }
